@@ -260,14 +260,16 @@ fn json_recovers(v: &Value, j: &serde_json::Value, toks: &mut std::slice::Iter<S
         (Value::Bool(a), J::Bool(b)) if a == b => Ok(()),
         (Value::String(a), J::String(b)) if a == b => Ok(()),
         (Value::Interval(d), J::String(b)) if *b == v.to_string() => {
-            // the text form of a non-negative interval carries the value (to the millisecond): hours:minutes:seconds.millis
-            // with hours unbounded — judged by reading the text back, not by re-deriving the text
-            if *d >= chrono::Duration::zero() {
-                let parts: Vec<&str> = b.split(|c| c == ':' || c == '.').collect();
-                let nums: Vec<Option<i64>> = parts.iter().map(|p| p.parse::<i64>().ok()).collect();
+            // the text form of an interval carries the value (to the millisecond): an optional sign, then
+            // hours:minutes:seconds.millis with hours unbounded — judged by reading the text back, not by re-deriving the text
+            {
+                let (neg, body) = match b.strip_prefix('-') { Some(r) => (true, r), None => (false, b.as_str()) };
+                let parts: Vec<&str> = body.split(|c| c == ':' || c == '.').collect();
+                let nums: Vec<Option<i64>> = parts.iter().map(|p| if p.chars().all(|c| c.is_ascii_digit()) { p.parse::<i64>().ok() } else { None }).collect();
                 let ok = nums.len() == 4 && nums.iter().all(|n| n.is_some()) && {
                     let n: Vec<i64> = nums.iter().map(|n| n.unwrap()).collect();
-                    n[1] < 60 && n[2] < 60 && n[3] < 1000 && n[0].checked_mul(3_600_000).and_then(|h| h.checked_add(n[1] * 60_000 + n[2] * 1000 + n[3])) == Some(d.num_milliseconds())
+                    let mag = n[0].checked_mul(3_600_000).and_then(|h| h.checked_add(n[1] * 60_000 + n[2] * 1000 + n[3]));
+                    n[1] < 60 && n[2] < 60 && n[3] < 1000 && mag.map(|m| if neg { -m } else { m }) == Some(d.num_milliseconds()) && (!neg || *d < chrono::Duration::zero())
                 };
                 if !ok { return Err(format!("INTERVAL of {} ms printed as {:?}, which does not read back as that duration", d.num_milliseconds(), b)); }
             }
